@@ -112,27 +112,8 @@ def run(ctx) -> None:
     rep.check("C10.R3", not blocking, D, blocking[0] if blocking else D.node, "no blocking send in dispatch", f"dispatch calls `{ast.unparse(blocking[0].func) if blocking else ''}`")
 
     # ------------------------------------------------------------------ R4 subscription bracket
-    Sub = sa.subscribe
-    scfg = a.cfg(Sub)
-    sp = Sub.params[1] if len(Sub.params) > 1 else None
-    adds = [(n, m) for n, m in a.func_mutations(Sub) if m.path == ("self", streams) and m.kind in ("call:append", "call:add")]
-    rems = [(n, m) for n, m in a.func_mutations(Sub) if m.path == ("self", streams) and m.kind.startswith("call:") and m.kind not in ("call:append", "call:add")]
-    yields = [n for n in a.yield_nodes(Sub)]
-    if not adds or not yields:
-        rep.violate("C10.R4", Sub, Sub.node, "the subscribe helper does not add the stream before yielding")
-    else:
-        rep.check("C10.R4", adds[0][1].node.args and isinstance(adds[0][1].node.args[0], ast.Name) and adds[0][1].node.args[0].id == sp, Sub, adds[0][1].node, "the given send stream is added to the subscriber list", "something else than the given stream is subscribed")
-        rep.check("C10.R4", scfg.dominates(adds[0][0].id, yields[0].id), Sub, adds[0][1].node, "the subscription exists when the context manager is entered", "the stream is added after the yield")
-        if not rems:
-            rep.violate("C10.R4", Sub, Sub.node, "the stream is never removed from the subscriber list: dispatch keeps sending to finished subscribers")
-        else:
-            rm = rems[0][1]
-            ok = rm.kind in ("call:remove",) and rm.node.args and isinstance(rm.node.args[0], ast.Name) and rm.node.args[0].id == sp
-            rep.check("C10.R4", bool(ok), Sub, rm.node, "exactly the subscribed stream is removed again (by value)", f"`{ast.unparse(rm.node)}` does not remove the stream that was added: when subscribers leave in another order than they came, a live subscriber is dropped and a closed stream stays in the list (dispatch then raises)")
-            tries = [t for t in walk_own(Sub.node) if isinstance(t, ast.Try) and any(any(x is rm.node for x in ast.walk(fb)) for fb in t.finalbody)]
-            cov = bool(tries) and any(isinstance(x, (ast.Yield, ast.YieldFrom)) for b in tries[0].body for x in ast.walk(b))
-            rep.check("C10.R4", cov, Sub, rm.node, "the removal sits in a `finally` around the yield: every way of leaving the stream unsubscribes", "the removal is not in a finally around the yield")
-    # stream_events: streams entered before the subscriptions
+    from .tables import enclosing_loops
+
     regs = exit_stack_registrations(ctx, stream_events)
     secfg = a.cfg(stream_events)
     cms = [c for c, _ in a.func_calls(stream_events) if call_name(c) == "create_memory_object_stream"]
@@ -140,32 +121,95 @@ def run(ctx) -> None:
     for n in walk_own(stream_events.node):
         if isinstance(n, ast.Assign) and isinstance(n.value, ast.Call) and call_name(n.value) == "create_memory_object_stream" and isinstance(n.targets[0], ast.Tuple) and len(n.targets[0].elts) == 2:
             send_v, recv_v = n.targets[0].elts[0].id, n.targets[0].elts[1].id
-    sub_regs = [(n, c) for n, c, nm in regs if c.args and isinstance(c.args[0], ast.Call) and a.callee(stream_events, c.args[0]).kind == "func" and a.callee(stream_events, c.args[0]).func is Sub]
     send_regs = [(n, c) for n, c, nm in regs if c.args and isinstance(c.args[0], ast.Name) and c.args[0].id == send_v]
     recv_regs = [(n, c) for n, c, nm in regs if c.args and isinstance(c.args[0], ast.Name) and c.args[0].id == recv_v]
-    if not sub_regs:
-        rep.violate("C10.R4", stream_events, stream_events.node, "stream_events never subscribes to the signals")
-    else:
-        sn, sc = sub_regs[0]
+    sub_point = None  # (cfg node in stream_events, ast node) where a signal gets subscribed
+    sub_stream_arg = None
+    if not sa.add_sites:
+        rep.violate("C10.R4", stream_events, stream_events.node, "no stream is ever added to a subscriber list")
+    for Sub, an_, am in sa.add_sites:
+        scfg = a.cfg(Sub)
+        added = am.node.args[-1] if am.node.args else None
+        if a.is_cm(Sub):
+            # form (a): context manager  append / try: yield / finally: remove
+            sp = Sub.params[1] if len(Sub.params) > 1 else None
+            rems = [(n, m) for n, m in a.func_mutations(Sub) if m.path[-1] == streams and m.kind.startswith("call:") and m.kind not in ("call:append", "call:add")]
+            yields = [n for n in a.yield_nodes(Sub)]
+            rep.check("C10.R4", isinstance(added, ast.Name) and added.id == sp, Sub, am.node, "the given send stream is added to the subscriber list", "something else than the given stream is subscribed")
+            rep.check("C10.R4", bool(yields) and scfg.dominates(an_.id, yields[0].id), Sub, am.node, "the subscription exists when the context manager is entered", "the stream is added after the yield")
+            if not rems:
+                rep.violate("C10.R4", Sub, Sub.node, "the stream is never removed from the subscriber list: dispatch keeps sending to finished subscribers")
+            else:
+                rm = rems[0][1]
+                ok = rm.kind in ("call:remove",) and rm.node.args and isinstance(rm.node.args[0], ast.Name) and rm.node.args[0].id == sp
+                rep.check("C10.R4", bool(ok), Sub, rm.node, "exactly the subscribed stream is removed again (by value)", f"`{ast.unparse(rm.node)}` does not remove the stream that was added: when subscribers leave in another order than they came, a live subscriber is dropped and a closed stream stays in the list (dispatch then raises)")
+                tries = [t for t in walk_own(Sub.node) if isinstance(t, ast.Try) and any(any(x is rm.node for x in ast.walk(fb)) for fb in t.finalbody)]
+                cov = bool(tries) and any(isinstance(x, (ast.Yield, ast.YieldFrom)) for b in tries[0].body for x in ast.walk(b))
+                rep.check("C10.R4", cov, Sub, rm.node, "the removal sits in a `finally` around the yield: every way of leaving the stream unsubscribes", "the removal is not in a finally around the yield")
+            for n, c, nm in regs:
+                if c.args and isinstance(c.args[0], ast.Call) and a.callee(stream_events, c.args[0]).kind == "func" and a.callee(stream_events, c.args[0]).func is Sub:
+                    sub_point = (n, c)
+                    inner = c.args[0]
+                    sub_stream_arg = inner.args[0] if inner.args else None
+                    rep.check("C10.R4", nm == "enter_context", stream_events, c, "the subscription is entered on the exit stack", f"the subscription context manager is registered with `{nm}`")
+            if sub_point is None:
+                rep.violate("C10.R4", stream_events, stream_events.node, "stream_events never enters the subscription context manager")
+        elif Sub is stream_events:
+            # forms (b)/(c): append in stream_events itself (possibly inlined from a helper) + a removal callback on the exit stack
+            sub_point = (an_, am.node)
+            sub_stream_arg = added
+            removal = None
+            for n, c, nm in regs:
+                if nm != "callback" or len(c.args) < 2:
+                    continue
+                tgt = c.args[0]
+                direct = isinstance(tgt, ast.Attribute) and tgt.attr in ("remove",) and isinstance(tgt.value, ast.Attribute) and tgt.value.attr == streams
+                via_method = False
+                if isinstance(tgt, ast.Attribute) and not direct:
+                    t = a.r.expr_type(stream_events, tgt.value)
+                    m_ = ctx.p.method(t, tgt.attr) if t is not None and not isinstance(t, str) else None
+                    if m_ is not None:
+                        rms = [mu for _, mu in a.func_mutations(m_) if mu.path[-1] == streams and mu.kind == "call:remove"]
+                        p1 = m_.params[1] if len(m_.params) > 1 else None
+                        via_method = bool(rms) and rms[0].node.args and isinstance(rms[0].node.args[0], ast.Name) and rms[0].node.args[0].id == p1
+                if direct or via_method:
+                    removal = (n, c)
+            if removal is None:
+                rep.violate("C10.R4", stream_events, am.node, "the stream is added to the subscriber list but its removal (by value) is not registered on the exit stack: finished subscribers stay subscribed / the wrong one is removed")
+            else:
+                rn, rc = removal
+                rep.check("C10.R4", added is not None and ast.unparse(rc.args[1]) == ast.unparse(added), stream_events, rc, "exactly the subscribed stream is removed again (by value)", "the registered removal does not remove the stream that was added")
+                rep.check("C10.R4", ast.unparse(rc.args[0].value.value if isinstance(rc.args[0].value, ast.Attribute) else rc.args[0].value) == ast.unparse(am.node.func.value.value), stream_events, rc, "it is removed from the same signal it was added to", "the removal targets another signal's list")
+                heads = [x.id for x in secfg.live_nodes() if x.kind == "for_next"]
+                btw = secfg.between([an_.id], [rn.id], avoid=heads) - {an_.id, rn.id}
+                raising = [i for i in btw if a.node_may_raise(stream_events, secfg, secfg.nodes[i])]
+                rep.check("C10.R4", secfg.dominates(an_.id, rn.id) and not raising, stream_events, rc, "the removal is registered right after the stream was added (nothing can fail in between)", "something can fail between adding the stream and registering its removal: the subscription would leak")
+        else:
+            rep.unrecognised("C10.R4", Sub, am.node, "a stream is added to a subscriber list in an unexpected function")
+    if sub_point is not None:
+        sn, sc = sub_point
         for what, rr in (("send", send_regs), ("receive", recv_regs)):
             if not rr:
                 rep.violate("C10.R4", stream_events, sc, f"the {what} stream is never entered on the exit stack: it is not closed when the stream is left")
                 continue
             ok = secfg.dominates(rr[0][0].id, sn.id) and rr[0][0].id not in secfg.reach([sn.id], include_start=False)
             rep.check("C10.R4", ok, stream_events, rr[0][1], f"the {what} stream is entered before the subscriptions, so it is closed only after they were removed (no dispatch ever sees a closed stream)", f"the {what} stream is closed before the subscriptions are removed: a dispatch in between hits a closed stream")
-        from .tables import enclosing_loops
-
         loops2 = enclosing_loops(stream_events, sc)
         sig_param = stream_events.params[0]
         ok = bool(loops2) and isinstance(loops2[-1][0], ast.Name) and loops2[-1][0].id == sig_param
         rep.check("C10.R4", ok, stream_events, sc, "every signal of the `signals` argument is subscribed", "not every given signal is subscribed")
-        inner = sc.args[0]
-        rep.check("C10.R4", inner.args and isinstance(inner.args[0], ast.Name) and inner.args[0].id == send_v, stream_events, sc, "all signals feed the same send stream", "the subscription does not use this stream's send end")
+        rep.check("C10.R4", isinstance(sub_stream_arg, ast.Name) and sub_stream_arg.id == send_v, stream_events, sc, "all signals feed the same send stream", "the subscription does not use this stream's send end")
     rep.floor("C10.R4", len(regs), 4)
 
     # ------------------------------------------------------------------ R5 filter on every yielded event
     fparam = stream_events.params[1] if len(stream_events.params) > 1 else "filter"
     gens = [g for g in stream_events.nested.values() if g.is_generator]
+    gen_call = None
+    for c, cal in a.func_calls(stream_events):
+        if cal.kind == "func" and cal.func.is_generator and cal.func.is_async and not a.is_acm(cal.func):
+            gen_call = (c, cal.func)
+            if cal.func not in gens:
+                gens = [cal.func]
     if not gens:
         rep.violate("C10.R5", stream_events, stream_events.node, "no filtering generator: the filter is never applied")
     else:
@@ -173,7 +217,19 @@ def run(ctx) -> None:
         gcfg = a.cfg(G)
         ys = a.yield_nodes(G)
         afor = [n for n in walk_own(G.node) if isinstance(n, ast.AsyncFor)]
-        rep.check("C10.R5", bool(afor) and isinstance(afor[0].iter, ast.Name) and afor[0].iter.id == recv_v, G, afor[0] if afor else G.node, "the generator consumes this stream's receive end", "the generator does not read the receive stream")
+        # a hoisted (module-level) generator receives the receive stream and the filter as arguments
+        g_recv, g_filter = recv_v, fparam
+        if G.parent is None and gen_call is not None:
+            from .discharge import arg_mapping
+
+            mp = arg_mapping(G, gen_call[0], has_receiver=False) or {}
+            for k, v in mp.items():
+                if isinstance(v, ast.Name) and v.id == recv_v:
+                    g_recv = k
+                if isinstance(v, ast.Name) and v.id == fparam:
+                    g_filter = k
+        fparam_outer, fparam = fparam, g_filter
+        rep.check("C10.R5", bool(afor) and isinstance(afor[0].iter, ast.Name) and afor[0].iter.id == g_recv, G, afor[0] if afor else G.node, "the generator consumes this stream's receive end", "the generator does not read the receive stream")
         for y in ys:
             cts = controlling_tests(gcfg, y)
             ok = False
